@@ -15,7 +15,7 @@ from typing import Any, Dict, List, Tuple
 from . import core
 
 NONASCII = ["naïve café", "Größe", "日本語のメモ", "emoji 🙂 ok", "Ελληνικά", "ключ",
-            "zero\ufeffwidth", "line\u2028separator", "next\u0085line", "form\x0cfeed", "para\u2029graph", "fs\x1cchar"]
+            "zero\ufeffwidth", "nb\u00a0sp", "ideo\u3000space", "thin\u2009space", "line\u2028separator", "next\u0085line", "form\x0cfeed", "para\u2029graph", "fs\x1cchar"]
 
 
 def repo_docs(max_bytes: int = 20000) -> List[Tuple[str, str]]:
